@@ -42,8 +42,9 @@ Definition is_d0 (s : astate) : bool := match dep s with D0 => true | _ => false
 Definition c02_post_full (s : astate) : bool :=
   mqn s && cpl s && sqn s && plid s && fullw s && is_d0 s.
 
+(* (D10, the missing single-qudit retarget stage of the state / state-system workflows, was an exception class here
+   until repo commit df47266 fixed it: those workflows now get the full statement.) *)
 Inductive c02_exn :=
-| ExStateSQ      (* D10: state / state-system workflows have no single-qudit retarget stage *)
 | ExManyCoupling (* a gate on > 2 qudits in the model's gate set: the second retarget synthesises with the
                     connectivity extracted, SABRE only asks for a connected location, search synthesis places
                     wide gates on connected (not pairwise coupled) locations *)
@@ -60,20 +61,19 @@ Definition noplace_class (m : meta) (s : astate) : bool :=
   negb (fullw s) && (negb (is_circuit m) || (Nat.eqb (m_level m) 4 && w1 s)).
 
 Definition c02_exns (m : meta) : list c02_exn :=
-  (if is_state m then [ExStateSQ] else [])
-  ++ (if many_model (m_cfg m) then [ExManyCoupling] else [])
+  (if many_model (m_cfg m) then [ExManyCoupling] else [])
   ++ (if negb (is_circuit m) || Nat.eqb (m_level m) 4 then [ExNoPlacement] else [])
   ++ (if nosq_model (m_cfg m) && is_circuit m then [ExNoSQ] else []).
 
 Definition exn_cand (m : meta) (e : c02_exn) (s : astate) : bool :=
   match e with
-  | ExStateSQ | ExNoSQ => true
+  | ExNoSQ => true
   | ExManyCoupling => negb (w1 s)
   | ExNoPlacement => noplace_class m s
   end.
 Definition exn_bad (e : c02_exn) (s : astate) : bool :=
   match e with
-  | ExStateSQ | ExNoSQ => negb (sqn s)
+  | ExNoSQ => negb (sqn s)
   | ExManyCoupling => negb (cpl s)
   | ExNoPlacement => negb (fullw s)
   end.
@@ -82,7 +82,7 @@ Definition c02_pre (m : meta) : sset := filter (fun s => negb (noplace_class m s
 Definition c02_post (m : meta) (s : astate) : bool :=
   let c := m_cfg m in
   mqn s && (cpl s || many_model c)
-  && (sqn s || is_state m || (nosq_model c && is_circuit m && warned s))
+  && (sqn s || (nosq_model c && is_circuit m && warned s))
   && plid s && fullw s && is_d0 s.
 
 (* proved part AND, for every exception class of the configuration, a machine-checked run of the faithful
